@@ -22,6 +22,7 @@ type req struct {
 	id    uint64
 	delay time.Duration // reply after this delay (0 = at once)
 	never bool          // never reply
+	hold  chan struct{} // reply when this channel is closed (a LATE reply released by the harness)
 }
 type rep struct{ id uint64 }
 
@@ -30,6 +31,8 @@ type askCmd struct {
 	id      uint64
 	timeout time.Duration
 	out     chan vivid.Future[vivid.Message]
+	never   bool
+	hold    chan struct{}
 }
 
 const margin = 3 * time.Second
@@ -99,6 +102,12 @@ func main() {
 		if m, ok := ctx.Message().(req); ok {
 			switch {
 			case m.never:
+			case m.hold != nil:
+				sender := ctx.Sender()
+				go func() {
+					<-m.hold
+					sys.Tell(sender, rep{m.id})
+				}()
 			case m.delay > 0:
 				sender := ctx.Sender()
 				go func() {
@@ -264,6 +273,157 @@ func main() {
 					sys.PipeTo(responder, req{id: id}, vivid.ActorRefs{collA, collB}, 10*time.Second)
 				}
 			}(kind, tiny)
+		}
+		wg.Wait()
+	}
+	// ---- name reuse: reply addresses must be unique across incarnations of the asking actor ----
+	// generation g of the actor named `name` makes k Asks that are answered LATE (on release); they end by timeout or
+	// by the asker's death; the actor terminates; generation g+1 is spawned under the SAME name and parent and makes its
+	// k Asks (never answered); then the late replies of generation g are released. No future of generation g+1 may
+	// complete with a reply produced for a request of generation g.
+	askerActor := func() vivid.Actor {
+		return vivid.ActorFN(func(ctx vivid.ActorContext) {
+			if c, ok := ctx.Message().(askCmd); ok {
+				c.out <- ctx.Ask(c.target, req{id: c.id, never: c.never, hold: c.hold}, c.timeout)
+			}
+		})
+	}
+	spawnNamed := func(name string) (vivid.ActorRef, bool) {
+		deadline := time.Now().Add(margin)
+		for {
+			ref, err := sys.ActorOf(askerActor(), vivid.WithActorName(name))
+			if err == nil {
+				return ref, true
+			}
+			if time.Now().After(deadline) {
+				h.hit("harness", fmt.Sprintf("cannot respawn %s: %v", name, err))
+				return nil, false
+			}
+			time.Sleep(time.Millisecond)
+		}
+	}
+	type pending struct {
+		id  uint64
+		fut vivid.Future[vivid.Message]
+	}
+	askVia := func(asker vivid.ActorRef, k int, timeout time.Duration, hold chan struct{}) []pending {
+		var out []pending
+		for i := 0; i < k; i++ {
+			id := nextID.Add(1)
+			ch := make(chan vivid.Future[vivid.Message], 1)
+			sys.Tell(asker, askCmd{target: responder, id: id, timeout: timeout, out: ch, never: hold == nil, hold: hold})
+			select {
+			case fut := <-ch:
+				out = append(out, pending{id, fut})
+			case <-time.After(margin):
+				h.hit("harness", "named asker did not ask")
+				return out
+			}
+		}
+		return out
+	}
+	// completedNow reports the result if the future is completed within a short window
+	completedNow := func(fut vivid.Future[vivid.Message]) (vivid.Message, error, bool) {
+		type r struct {
+			m vivid.Message
+			e error
+		}
+		ch := make(chan r, 1)
+		go func() {
+			m, e := fut.Result()
+			ch <- r{m, e}
+		}()
+		select {
+		case x := <-ch:
+			return x.m, x.e, true
+		case <-time.After(60 * time.Millisecond):
+			return nil, nil, false
+		}
+	}
+	checkOwn := func(p pending, what string) {
+		if m, e, done := completedNow(p.fut); done && e == nil {
+			if x, ok := m.(rep); !ok || x.id != p.id {
+				h.hit("reply-misrouted", fmt.Sprintf("%s: the future of request %d completed with %v, the reply to a DIFFERENT request", what, p.id, m))
+			} else {
+				h.hit("wrong-result", fmt.Sprintf("%s: request %d is never answered but completed with %v", what, p.id, m))
+			}
+		}
+	}
+	reuse := func(name string, gens, k int, byTimeout bool) {
+		var release []chan struct{}
+		var old [][]pending
+		for g := 0; g < gens; g++ {
+			h.count("name-reuse-generation")
+			asker, ok := spawnNamed(name)
+			if !ok {
+				return
+			}
+			var mine []pending
+			last := g == gens-1
+			if last {
+				mine = askVia(asker, k, 20*time.Second, nil) // never answered
+			} else {
+				hold := make(chan struct{})
+				release = append(release, hold)
+				to := 20 * time.Second
+				if byTimeout {
+					to = 2 * time.Millisecond
+				}
+				mine = askVia(asker, k, to, hold)
+				old = append(old, mine)
+				if byTimeout {
+					for _, p := range mine {
+						if _, e, done := h.resultWithin(p.fut, margin, "named asker timeout"); done && !errors.Is(e, vivid.ErrorFutureTimeout) {
+							h.hit("wrong-result", fmt.Sprintf("request %d: want timeout, got %v", p.id, e))
+						}
+					}
+				}
+				sys.Kill(asker, false, "verif: next incarnation")
+				for _, p := range mine {
+					if _, e, done := h.resultWithin(p.fut, margin, "named asker killed"); done && e == nil {
+						h.hit("wrong-result", fmt.Sprintf("request %d completed without error although it is unanswered", p.id))
+					}
+				}
+				continue
+			}
+			// the last generation is pending: release every late reply of the earlier generations
+			for _, hold := range release {
+				close(hold)
+			}
+			for _, p := range mine {
+				checkOwn(p, "name reuse "+name)
+			}
+			// the old futures keep their result
+			for _, gen := range old {
+				for _, p := range gen {
+					if m, e := p.fut.Result(); e == nil {
+						h.hit("completed-twice", fmt.Sprintf("request %d: a late reply changed the result to (%v,nil)", p.id, m))
+					}
+				}
+			}
+			sys.Kill(asker, false, "verif: done")
+			for _, p := range mine {
+				m, e, done := h.resultWithin(p.fut, margin, "last named asker killed")
+				if done && e == nil {
+					if x, ok := m.(rep); !ok || x.id != p.id {
+						h.hit("reply-misrouted", fmt.Sprintf("name reuse %s: the future of request %d completed with %v", name, p.id, m))
+					}
+				}
+			}
+		}
+	}
+	{
+		names := 4
+		if f.Tier == "thorough" {
+			names = 24
+		}
+		var wg sync.WaitGroup
+		for i := 0; i < names; i++ {
+			wg.Add(1)
+			go func(i int) {
+				defer wg.Done()
+				reuse(fmt.Sprintf("reuse-%d", i), 2+i%2, 1+i%3, i%2 == 0)
+			}(i)
 		}
 		wg.Wait()
 	}
